@@ -115,8 +115,6 @@ class Passive(Compiler):
     primitives = {
         # meta operations
         "All",
-        "_New_modes",
-        "_Delete",
         # single mode gates
         "Rgate",
         "LossChannel",
